@@ -27,7 +27,7 @@ func init() {
 		ID:    "C08",
 		Level: "exploration",
 		Rule: "E1 bounded-exhaustive enumeration, per width n in {1,2,4,8}: (split) every string of length ≤2 over all 256 byte values and of length ≤L over {00,01,7f,80,ff,a5,5a,'a'}: FromStr length and every word, Get at every index, ToStr∘FromStr; " +
-			"(pack) ToStr on every list of in-range words up to a width-dependent length (every partial-last-byte shape); (diff) FirstDiff on every ordered pair of strings of length ≤D over 6 bytes × every from in [0, words+2] × every end in [-1, words+2]; (lists) FromStrs/ToStrs element-wise on every list of ≤3 strings over 4 strings. " +
+			"(pack) ToStr on every list of in-range words up to a width-dependent length (every partial-last-byte shape); (diff) FirstDiff on every ordered pair of strings of length ≤D over 6 bytes × every from in [0, words+2] × every end in [-1, words+2]; (diff, long) FirstDiff on every ordered pair of 48 strings of 8..19 bytes (4 stem variants × 3 tails) and on single-byte flips of 9- and 17-byte bases at every byte position × every from × 7 ends; (lists) FromStrs/ToStrs element-wise on every list of ≤3 strings over 4 strings. " +
 			"Oracle: the string's '0'/'1' rendering cut into n-bit groups. A case is one call; non-trivial when the string/list is non-empty.",
 		Assumptions: []string{"from < 0 and end < -1 are outside the statement and not called; long strings over the full byte alphabet are not enumerated"},
 		Run:         c08Run,
@@ -159,6 +159,11 @@ func c08Run(c *mc.Ctx) {
 			strs = append(strs, s)
 		}
 	}
+	for _, n := range []int{7, 8, 9, 15, 16, 17, 31, 32, 33, 64, 65} {
+		for v := 0; v < c09StemVariants; v++ {
+			strs = append(strs, c09StemV(n, v)+"\xa5\x01")
+		}
+	}
 	for _, n := range c08Widths {
 		for _, s := range strs {
 			c.Expect(int64(2 + 8*len(s)/n))
@@ -252,6 +257,72 @@ func c08Run(c *mc.Ctx) {
 	})
 	c.ForceSample(map[string]interface{}{"fn": "FirstDiff", "width": 4, "a": "a5ff", "b": "a580", "from": 0, "end": -1, "expected": refFirstDiff("\xa5\xff", "\xa5\x80", 4, 0, -1)})
 
+	// (diff, long) strings of 8..19 bytes: 4 stem variants × tails, all ordered pairs, plus single-byte
+	// flips of two bases at every byte position; every from, and ends around the interesting places
+	var longs []string
+	for _, n := range []int{8, 9, 16, 17} {
+		for v := 0; v < c09StemVariants; v++ {
+			for _, t := range []string{"", "\x00", "a\xff"} {
+				longs = append(longs, c09StemV(n, v)+t)
+			}
+		}
+	}
+	type pair struct{ a, b string }
+	var pairs []pair
+	for _, a := range longs {
+		for _, b := range longs {
+			pairs = append(pairs, pair{a, b})
+		}
+	}
+	for _, n := range []int{9, 17} {
+		base := c09Stem(n)
+		for p := 0; p < n; p++ {
+			for _, m := range []byte{0x80, 0x10, 0x01, 0xff} {
+				fl := []byte(base)
+				fl[p] ^= m
+				pairs = append(pairs, pair{base, string(fl)}, pair{string(fl), base})
+			}
+		}
+	}
+	for _, n := range c08Widths {
+		for _, pr := range pairs {
+			wa, wb := 8*len(pr.a)/n, 8*len(pr.b)/n
+			m := wa
+			if wb < m {
+				m = wb
+			}
+			c.Expect(int64(m+2) * 7)
+		}
+	}
+	c.Par(len(pairs)*4, func(k int) {
+		if c.TooMany() {
+			return
+		}
+		n := c08Widths[k%4]
+		pr := pairs[k/4]
+		wa, wb := 8*len(pr.a)/n, 8*len(pr.b)/n
+		m := wa
+		if wb < m {
+			m = wb
+		}
+		var evals int64
+		for from := 0; from <= m+1; from++ {
+			for ei, end := range []int{-1, from, from + 1, m - 1, m, m + 1, 64 / n} {
+				if end < -1 {
+					end = -1
+				}
+				want := refFirstDiff(pr.a, pr.b, n, from, end)
+				got, p := bwFirstDiff(n, pr.a, pr.b, from, end)
+				if p != "" || got != want {
+					c.Fail(4<<50|int64(k)<<20|int64(from)<<4|int64(ei), "FirstDiff", "FirstDiff", c08Case{Width: n, A: gen.Bytes(pr.a), B: gen.Bytes(pr.b), From: from, End: end}, p+fmt.Sprint(got), fmt.Sprint(want))
+				}
+				evals++
+			}
+		}
+		c.Count(evals, evals)
+		c.Add("firstdiff_cases", evals)
+		c.Add("firstdiff_long_cases", evals)
+	})
 	// (lists)
 	la := []string{"", "\xa5", "\x01\x80", "a\xff\x00"}
 	var lists [][]string
